@@ -80,6 +80,28 @@ CHECKS = {
         design_ref="DESIGN.md section 8 / C10",
         note=PYVC_NOTE + " Loop level: ints mathematical, RES/NCHILD/CHILD uninterpreted, PS ghost prefix sum.",
     ),
+
+    "C15": dict(
+        engine="ivc",
+        technique="contract-based verification with a validated-numerics back end: the bodies of AuthalicProjection.forward/inverse are re-read from the AST and evaluated over second-order interval jets (mpmath.iv, outward rounding, running binary64 rounding-error bound); the real-interval contracts are decided by adaptive branch and bound; oddness by exact symbolic mirroring of the AST",
+        category="proof",
+        text=("For every real latitude in [-pi/2, pi/2]: |forward(phi) - asin(q(phi)/q(pi/2))| <= 1e-10 against the closed-form WGS84 authalic latitude (not the series), "
+              "|inverse(forward(phi)) - phi| <= 1e-12, forward' > 0, each including the accumulated binary64 rounding error of the real code; forward and inverse are odd exactly "
+              "(symbolic mirroring under the IEEE identities); 0 and +-pi/2 are fixed (three-point domain executed). The poles need no special treatment: order-0 enclosures close "
+              "the last 1e-10 rad, Taylor boxes grade towards them."),
+        design_ref="DESIGN.md sections 4, 8 / C15",
+        note="Trusted: libm sin/cos within 1 ulp, odd/even exactly; mpmath.iv outward rounding; the straight-line AST evaluator (any other construct => undecided). 'Strictly increasing' is proved for the real-arithmetic function (derivative >= 0.995); adjacent binary64 inputs closer than the rounding error are not distinguished.",
+    ),
+    "C19": dict(
+        engine="pyvc",
+        technique="contract-based deductive verification: u64_to_hex and hex_to_u64 executed symbolically from their AST with strings as vectors of symbolic characters, complete case split over the 16 digit counts, z3; builtin hex()/int(s,16)/slicing by stated contracts, cross-validated at run time",
+        category="proof",
+        text=("For every n in [0, 2^64) (16 cases by number of hex digits, n one symbolic bit-vector per case): u64_to_hex(n) has exactly the significant digits, each the lower-case "
+              "nibble, no prefix/sign/padding; hex_to_u64(u64_to_hex(n)) == n; hex_to_u64 of the same digits with every character independently upper- or lower-case and 0/1/4 leading "
+              "zeros is n. Injectivity of the text form follows from the left inverse. Bodies outside the modelled string subset fall back to a bounded native check (undecided unless it fails)."),
+        design_ref="DESIGN.md section 8 / C19",
+        note=PYVC_NOTE + " Assumed builtin contracts (A4): hex, int(s,16), constant slicing, upper/lower/zfill/format-x; validated against CPython on 2^19 values at run time.",
+    ),
     "C16": dict(
         engine="fxc+pyvc",
         technique="frame/ownership contracts over the static call graph of the public API (sufficient condition: no write to shared state except structurally verified idempotent cache fills and a print-only counter), cache-index injectivity VCs by z3, failing schedules replayed with a line-level preemption harness",
